@@ -131,7 +131,7 @@ impl Prop for Faulted {
         6400
     }
     fn cases(&self, tier: Tier) -> u32 {
-        tier.pick(6_000, 300_000)
+        tier.pick(30_000, 1_000_000)
     }
     fn decode(&self, t: &mut Tape, _: Tier) -> Case {
         let which = t.weighted(&[70, 24, 6]);
